@@ -1109,6 +1109,14 @@ def _corr_pc(ctx, drv):
         n, h, o = s["n"], s["h"], s["order"]
         d0, v0 = _arr(s["d0"]), _arr(s["v0"])
         inp = dict(s, stream="pc")
+        ctx.case(json.dumps(s, sort_keys=True), nontrivial=F.shape[1] >= 3, branch="pc:order%d" % s["order"])
+        ctx.count("pc:style-" + s["style"])
+        if s.get("blockphi"):
+            ctx.count("pc:with-rigid-body-modes")
+        if s["static"]:
+            ctx.count("pc:static-ic")
+            if s.get("blockphi"):
+                ctx.count("pc:static-ic-with-rigid-body-modes")
         try:
             with warnings.catch_warnings():
                 warnings.simplefilter("ignore")
@@ -1131,14 +1139,9 @@ def _corr_pc(ctx, drv):
         vm0 = v0.copy() if v0 is not None else np.zeros(n)
         job = {"s": s, "inp": inp, "sol": sol, "el": el, "rb": rb, "req": [], "cond": 1.0, "M": M, "B": B, "K": K,
                "F": F, "d0": dm0, "v0": vm0}
-        ctx.case(json.dumps(s, sort_keys=True), nontrivial=bool(el) and nt >= 3, branch="pc:order%d" % s["order"])
-        ctx.count("pc:style-" + s["style"])
-        if rb:
-            ctx.count("pc:with-rigid-body-modes")
-        if s["static"]:
-            ctx.count("pc:static-ic")
-            if rb and np.any(F[rb, 0]):
-                ctx.count("pc:static-ic-with-rigid-body-modes")
+        if bool(rb) != bool(s.get("blockphi")):
+            ctx.disagree("pc-rb-detection", inp, rb, "rigid-body modes exactly for block mode shapes")
+            continue
         if el:
             Mee, Bee, Kee = (X[np.ix_(el, el)] for X in (M, B, K))
             A = _state_matrix(Mee, Bee, Kee)
@@ -1255,6 +1258,12 @@ def _corr_exp2(ctx, drv):
         n, h, o = s["n"], s["h"], s["order"]
         d0, v0 = _arr(s["d0"]), _arr(s["v0"])
         inp = dict(s, stream="exp2")
+        ctx.case(json.dumps(s, sort_keys=True), nontrivial=F.shape[1] >= 3, branch="exp2:order%d" % s["order"])
+        ctx.count("exp2:style-" + s["style"])
+        if s["rf"]:
+            ctx.count("exp2:with-rf")
+        if s["static"] and s["d0"] is None:
+            ctx.count("exp2:static-ic")
         try:
             with warnings.catch_warnings():
                 warnings.simplefilter("ignore")
@@ -1273,12 +1282,6 @@ def _corr_exp2(ctx, drv):
             ctx.skip("exp2: no dynamic equation")
             continue
         ks, nt = len(kd), F.shape[1]
-        ctx.case(json.dumps(s, sort_keys=True), nontrivial=nt >= 3, branch="exp2:order%d" % s["order"])
-        ctx.count("exp2:style-" + s["style"])
-        if rf:
-            ctx.count("exp2:with-rf")
-        if s["static"] and s["d0"] is None:
-            ctx.count("exp2:static-ic")
         kk_ = np.ix_(kd, kd)
         A = _state_matrix(M[kk_], B[kk_], K[kk_])
         E = np.block([[ts.E_vv, ts.E_vd], [ts.E_dv, ts.E_dd]])
@@ -1359,10 +1362,10 @@ def correspondence(ctx):
            "coupled:order0", "coupled:order1", "coupled:SolveUnc-coupled", "coupled:SolveExp1",
            "coupled:with-rigid-body-modes", "coupled:complex-path-rigid-body-recurrence",
            "partc:auto", "partc:with-rb", "partc:with-rf", "partc:slices", "partc:no-slices",
-           "pc:order0", "pc:order1", "pc:spec-checked", "pc:with-rigid-body-modes", "pc:static-ic",
+           "pc:order0", "pc:order1", "pc:with-rigid-body-modes", "pc:static-ic",
            "pc:static-ic-with-rigid-body-modes",
            "pc:style-modal", "pc:style-skew", "pc:style-sym+skew", "pc:style-sym",
-           "exp2:order0", "exp2:order1", "exp2:spec-checked", "exp2:with-rf", "exp2:static-ic",
+           "exp2:order0", "exp2:order1", "exp2:with-rf", "exp2:static-ic",
            "exp2:style-uncoupled", "exp2:style-skew", "exp2:style-sym+skew"]
     )
 
